@@ -64,8 +64,45 @@ theorem wf_add (c : Cell) (loc : Loc) (h : WF c) : WF (c.add loc).1 := by
 
 /-- what the slice shows after `deleteLocation`: the first entry with that url is erased -/
 theorem view_del (c : Cell) (u : String) (h : WF c) :
-    (c.del u).view = c.view.eraseIdx (c.view.findIdx (fun x => x.url == u)) := by
+    (c.del u).1.view = c.view.eraseIdx (c.view.findIdx (fun x => x.url == u)) := by
   unfold Cell.del
+  simp only
+  have hlen := view_length c h
+  by_cases hi : c.view.findIdx (fun x => x.url == u) < c.len
+  · simp only [hi, if_true]
+    show List.take (c.len - 1) (c.view.eraseIdx _) = _
+    rw [List.take_of_length_le]
+    rw [List.length_eraseIdx, hlen]; simp [hi]
+  · simp only [hi, if_false]
+    rw [List.eraseIdx_of_length_le (by omega)]
+
+/-- the fresh array of `deleteLocation` has no spare capacity -/
+theorem wf_del (c : Cell) (u : String) (h : WF c) : WF (c.del u).1 := by
+  unfold Cell.del WF at *
+  simp only
+  have hlen := view_length c h
+  by_cases hi : c.view.findIdx (fun x => x.url == u) < c.len
+  · simp only [hi, if_true, List.length_eraseIdx, hlen]; simp
+  · simpa [hi] using h
+
+/-- `deleteLocation` re-allocates exactly when it removes something -/
+theorem del_realloc (c : Cell) (u : String) :
+    (c.del u).2 = decide (c.view.findIdx (fun x => x.url == u) < c.len) := by
+  unfold Cell.del
+  simp only
+  by_cases hi : c.view.findIdx (fun x => x.url == u) < c.len <;> simp [hi]
+
+theorem del_noop (c : Cell) (u : String) (h : (c.del u).2 = false) : (c.del u).1 = c := by
+  unfold Cell.del at *
+  simp only at *
+  by_cases hi : c.view.findIdx (fun x => x.url == u) < c.len
+  · simp [hi] at h
+  · simp [hi]
+
+/-- what the slice shows after the PRE-REPAIR in-place delete -/
+theorem view_delInPlace (c : Cell) (u : String) (h : WF c) :
+    (c.delInPlace u).view = c.view.eraseIdx (c.view.findIdx (fun x => x.url == u)) := by
+  unfold Cell.delInPlace
   simp only
   by_cases hi : c.view.findIdx (fun x => x.url == u) < c.len
   · simp only [hi, if_true]
@@ -83,13 +120,6 @@ theorem view_del (c : Cell) (u : String) (h : WF c) :
   · simp only [hi, if_false]
     have := view_length c h
     rw [List.eraseIdx_of_length_le (by omega)]
-
-theorem wf_del (c : Cell) (u : String) (h : WF c) : WF (c.del u) := by
-  unfold Cell.del WF at *
-  simp only
-  by_cases hi : c.view.findIdx (fun x => x.url == u) < c.len
-  · simp only [hi, if_true, List.length_append, List.length_take, List.length_drop]; omega
-  · simpa [hi] using h
 
 theorem filter_ne_self (l : List Loc) (u : String) (h : u ∉ l.map (·.url)) :
     l.filter (fun x => x.url != u) = l := by
